@@ -143,7 +143,7 @@ func genDigest(x string, t types.Type, depth int, ind string, skipped *int) stri
 		}
 	case *types.Slice:
 		if b, ok := u.Elem().Underlying().(*types.Basic); ok && b.Kind() == types.Uint8 {
-			return fmt.Sprintf("%sd = verifDgBool(d, %s == nil)\n%sd = verifDgBytes(d, []byte(%s))\n", ind, x, ind, x)
+			return fmt.Sprintf("%sd = verifDgBool(d, %s == nil)\n%sd = verifDgBytes(d, []byte(%s))\n%sif keep != nil {\n%s\t*keep = append(*keep, []byte(%s))\n%s}\n", ind, x, ind, x, ind, ind, x, ind)
 		}
 		digestVar++
 		v := fmt.Sprintf("e%d", digestVar)
@@ -222,7 +222,8 @@ func emitReaderSwitch(sb *strings.Builder, fn, typ string, ms []*types.Func, ski
 		fmt.Fprintf(sb, "%q, ", m.Name())
 	}
 	sb.WriteString("}\n\n")
-	fmt.Fprintf(sb, "func %s(v %s, k int) (d []byte) {\n\tswitch k {\n", fn, typ)
+	fmt.Fprintf(sb, "func %s(v %s, k int) []byte { return %sK(v, k, nil) }\n\n", fn, typ, fn)
+	fmt.Fprintf(sb, "// %sK also appends every byte-slice result (the slice itself, not a copy) to *keep.\nfunc %sK(v %s, k int, keep *[][]byte) (d []byte) {\n\tswitch k {\n", fn, fn, typ)
 	for i, m := range ms {
 		fmt.Fprintf(sb, "\tcase %d:\n", i)
 		emitReaderCase(sb, m, "\t\t", skipped)
@@ -482,7 +483,7 @@ func genV6(p *packages.Package, res *genResult) {
 	sb.WriteString("\t}\n\treturn 0\n}\n\n")
 	res.counts["dhcpv6 option types"] = len(tis)
 	res.counts["dhcpv6 option readers (all types)"] = total
-	sb.WriteString("// verifOptionReader calls the k-th read-only method of o's dynamic type and folds its results.\nfunc verifOptionReader(o Option, k int) (d []byte) {\n\tswitch v := o.(type) {\n")
+	sb.WriteString("// verifOptionReader calls the k-th read-only method of o's dynamic type and folds its results.\nfunc verifOptionReader(o Option, k int) []byte { return verifOptionReaderK(o, k, nil) }\n\nfunc verifOptionReaderK(o Option, k int, keep *[][]byte) (d []byte) {\n\tswitch v := o.(type) {\n")
 	for _, ti := range tis {
 		fmt.Fprintf(&sb, "\tcase %s:\n\t\tswitch k {\n", ti.ts)
 		for i, m := range ti.ms {
